@@ -858,6 +858,9 @@ func unop(in *interpreter, instr *ssa.UnOp, x value) value {
 	if sx, ok := x.(*sym); ok {
 		return symUnop(instr.Op, instr.X.Type(), sx)
 	}
+	if _, ok := x.(opaqueFloat); ok && instr.Op == token.SUB {
+		return x
+	}
 	switch instr.Op {
 	case token.ARROW: // receive
 		v, ok := in.chanRecv(x.(*channel))
